@@ -210,6 +210,16 @@ TrDedupPair ==
   /\ (R.ans_orig.found /\ R.ans_orig.x = R.ans_keyed.x /\ R.ans_orig.lo = R.ans_keyed.lo) => R.ans_orig = R.ans_keyed
   /\ UNCHANGED sh
 
+\* a file record added to a manager (in memory, flushed, or in a registered shard) is found through it, with the
+\* segments it was added with
+TrMgrLookup ==
+  /\ IsEvent("ShMgrLookup")
+  /\ R.res = "hit" /\ R.rec.h = R.h
+  /\ \E i \in 1..Len(R.sids) : /\ R.sids[i] \in DOMAIN sh /\ R.h \in DOMAIN sh[R.sids[i]].files
+                                /\ sh[R.sids[i]].files[R.h].segs = R.rec.segs
+  /\ UNCHANGED sh
+TrMgrEnd == IsEvent("ShMgrEnd") /\ R.all_file_info >= R.distinct_files /\ UNCHANGED sh
+
 TrKeyedFile == IsEvent("ShKeyedFile") /\ R.found = R.incl_file /\ UNCHANGED sh
 
 ExpiryOK ==
@@ -225,7 +235,7 @@ TrExpiry == IsEvent("ShExpiry") /\ ExpiryOK = TRUE /\ UNCHANGED sh
 TrKeyedTimes == IsEvent("ShKeyedTimes") /\ R.creation = R.creation_set /\ R.expiry = R.creation + R.valid /\ UNCHANGED sh
 
 TraceNext == \/ TrReset \/ TrBuild \/ TrLookup \/ TrScan \/ TrSizes \/ TrSearch \/ TrDedup \/ TrSetOp \/ TrConsolidate
-             \/ TrExport \/ TrDedupPair \/ TrKeyedFile \/ TrExpiry \/ TrKeyedTimes
+             \/ TrExport \/ TrDedupPair \/ TrKeyedFile \/ TrExpiry \/ TrKeyedTimes \/ TrMgrLookup \/ TrMgrEnd
 TraceSpec == TraceInit /\ [][TraceNext]_vars
 
 TraceAccepted ==
